@@ -580,6 +580,12 @@ func rulesC14(c *Ctx) {
 	c14Confinement(c)
 	c14Escape(c)
 	c14LiveReads(c)
+	// deadlock freedom of the lock-free parts: every blocking channel operation of the library is on the reviewed
+	// inventory (a Try* that blocks, a send outside a select, a wait without a way out are not), and the bulkhead's
+	// semaphore is touched only by the acquire / release protocol
+	c08Blocking(c)
+	c06ChannelOwner(c)
+	c06Acquire(c)
 	c.Rule("user-function")
 	c01Leaf(c)
 	c.Rule("fresh-executors")
